@@ -180,7 +180,7 @@ Definition init_bundle_ok (c : ocase) (g : tcfg) : bool :=
   let n := c_vk g in
   match init_has c (SK n KKey), init_has c (SK n KCrt), init_has c (SK n KMeta) with
   | None, None, None => match c_prog g with PRenew _ | PAri _ => false | _ => true end
-  | Some (VKey k), Some (VCrt ce), Some (VMeta _) => Nat.eqb k (c_kid ce)
+  | Some (VKey k), Some (VCrt ce), Some (VMeta _ | VMetaA _) => Nat.eqb k (c_kid ce)
   | _, _, _ => false
   end.
 Definition s4_applies (c : ocase) : bool := forallb (init_bundle_ok c) (oc_cfgs c).
@@ -238,6 +238,7 @@ Definition get_value : dec value :=
   match t with
   | 0%nat => ret (VKey a) | 1%nat => ret (VCrt (Cert a b c)) | 2%nat => ret (VMeta a) | 3%nat => ret VRaw
   | 4%nat => ret (VLast (negb (Nat.eqb a 0)))
+  | 5%nat => ret (VMetaA a)
   | _ => fun _ => None
   end.
 Definition get_op : dec op :=
